@@ -10,6 +10,7 @@ package vsync
 
 import (
 	"fmt"
+	"os"
 	"runtime"
 	"sort"
 	"strings"
@@ -98,6 +99,21 @@ type Result struct {
 	Stuck    []string // pending operations at deadlock
 	Livelock bool
 	Trace    []string
+}
+
+// fast: a process that never runs the scheduler (the parent of the worker
+// processes: it only runs set-up-free breadth-first searches and collects
+// results) uses the real sync primitives directly. The mode is fixed at process
+// start, because a lock taken in one mode cannot be released in the other.
+var fast = os.Getenv("VERIF_WORKER") == "" && os.Getenv("VERIF_VSYNC") != "sched" && !hasReplayArg()
+
+func hasReplayArg() bool {
+	for _, a := range os.Args {
+		if strings.HasPrefix(a, "-replay") || strings.HasPrefix(a, "--replay") {
+			return true
+		}
+	}
+	return false
 }
 
 func goid() int64 {
@@ -212,6 +228,9 @@ func grantLocked(t *thread) bool {
 // harness thread has finished (or on deadlock / livelock); afterwards all
 // remaining goroutines run freely.
 func Run(choose Chooser, cfg Config, bodies ...func()) Result {
+	if fast {
+		panic("vsync.Run in a process that started in fast (pass-through) mode: set VERIF_VSYNC=sched")
+	}
 	big.Lock()
 	sched.rootGid = goid()
 	sched.threads = map[int64]*thread{}
@@ -384,10 +403,15 @@ func Yield() { point(opStart, nil, 0) }
 type Mutex struct {
 	held    bool
 	waiters []chan struct{}
+	rm      rsync.Mutex
 }
 
 // Lock locks m.
 func (m *Mutex) Lock() {
+	if fast {
+		m.rm.Lock()
+		return
+	}
 	if point(opLock, m, 1) {
 		return
 	}
@@ -409,6 +433,9 @@ func (m *Mutex) lockQuiet() {
 
 // TryLock tries to lock m.
 func (m *Mutex) TryLock() bool {
+	if fast {
+		return m.rm.TryLock()
+	}
 	big.Lock()
 	defer big.Unlock()
 	if m.held {
@@ -420,6 +447,10 @@ func (m *Mutex) TryLock() bool {
 
 // Unlock unlocks m.
 func (m *Mutex) Unlock() {
+	if fast {
+		m.rm.Unlock()
+		return
+	}
 	big.Lock()
 	if !m.held {
 		big.Unlock()
@@ -449,10 +480,15 @@ type RWMutex struct {
 	r     int
 	wwait int
 	q     []rwWaiter
+	rrw   rsync.RWMutex
 }
 
 // Lock locks rw for writing.
 func (rw *RWMutex) Lock() {
+	if fast {
+		rw.rrw.Lock()
+		return
+	}
 	if point(opWLock, rw, 1) {
 		return
 	}
@@ -471,6 +507,9 @@ func (rw *RWMutex) Lock() {
 
 // TryLock tries to lock rw for writing.
 func (rw *RWMutex) TryLock() bool {
+	if fast {
+		return rw.rrw.TryLock()
+	}
 	big.Lock()
 	defer big.Unlock()
 	if !rw.w && rw.r == 0 {
@@ -482,6 +521,10 @@ func (rw *RWMutex) TryLock() bool {
 
 // RLock locks rw for reading.
 func (rw *RWMutex) RLock() {
+	if fast {
+		rw.rrw.RLock()
+		return
+	}
 	if point(opRLock, rw, 1) {
 		return
 	}
@@ -503,6 +546,9 @@ func (rw *RWMutex) rlockQuiet() {
 
 // TryRLock tries to lock rw for reading.
 func (rw *RWMutex) TryRLock() bool {
+	if fast {
+		return rw.rrw.TryRLock()
+	}
 	big.Lock()
 	defer big.Unlock()
 	if !rw.w && rw.wwait == 0 {
@@ -538,6 +584,10 @@ func (rw *RWMutex) wakeLocked() (wake []chan struct{}) {
 
 // Unlock unlocks rw for writing.
 func (rw *RWMutex) Unlock() {
+	if fast {
+		rw.rrw.Unlock()
+		return
+	}
 	big.Lock()
 	if !rw.w {
 		big.Unlock()
@@ -553,6 +603,10 @@ func (rw *RWMutex) Unlock() {
 
 // RUnlock undoes a single RLock call.
 func (rw *RWMutex) RUnlock() {
+	if fast {
+		rw.rrw.RUnlock()
+		return
+	}
 	big.Lock()
 	if rw.r <= 0 {
 		big.Unlock()
@@ -580,10 +634,15 @@ func (rw *RWMutex) RLocker() Locker { return (*rlocker)(rw) }
 type WaitGroup struct {
 	n       int
 	waiters []chan struct{}
+	rwg     rsync.WaitGroup
 }
 
 // Add adds delta to the counter.
 func (wg *WaitGroup) Add(delta int) {
+	if fast {
+		wg.rwg.Add(delta)
+		return
+	}
 	big.Lock()
 	wg.n += delta
 	if wg.n < 0 {
@@ -605,6 +664,10 @@ func (wg *WaitGroup) Done() { wg.Add(-1) }
 
 // Wait blocks until the counter is zero.
 func (wg *WaitGroup) Wait() {
+	if fast {
+		wg.rwg.Wait()
+		return
+	}
 	if point(opWait, wg, 1) {
 		return
 	}
@@ -627,10 +690,15 @@ func (wg *WaitGroup) Wait() {
 type Once struct {
 	done atomic.Bool
 	m    Mutex
+	ro   rsync.Once
 }
 
 // Do calls f if and only if Do is being called for the first time.
 func (o *Once) Do(f func()) {
+	if fast {
+		o.ro.Do(f)
+		return
+	}
 	if o.done.Load() {
 		return
 	}
